@@ -96,11 +96,25 @@ func c04SourceFacts() (dateQuoted, rangeQuoted string) {
 			if !ok || len(vs.Names) != 1 || vs.Names[0].Name != varName || len(vs.Values) != 1 {
 				return true
 			}
-			res = "some false"
+			// raw paste = a DateWords* constant handed directly to fmt.Sprintf (the '.' of "Abt." is
+			// then a wildcard and the alternation first-match); anything else that builds the pattern
+			// (a quoting helper of whatever name) counts as quoted
+			res = "none"
 			ast.Inspect(vs.Values[0], func(m ast.Node) bool {
-				if call, ok := m.(*ast.CallExpr); ok {
-					if id, ok := call.Fun.(*ast.Ident); ok && id.Name == "dateWordsPattern" {
-						res = "some true"
+				call, ok := m.(*ast.CallExpr)
+				if !ok {
+					return true
+				}
+				sel, ok := call.Fun.(*ast.SelectorExpr)
+				if !ok || sel.Sel.Name != "Sprintf" {
+					return true
+				}
+				if res == "none" {
+					res = "some true"
+				}
+				for _, a := range call.Args {
+					if id, ok := a.(*ast.Ident); ok && strings.HasPrefix(id.Name, "DateWords") {
+						res = "some false"
 					}
 				}
 				return true
@@ -208,8 +222,9 @@ func init() {
 		fmt.Fprintf(&b, "/-- … and between the two dates -/\ndef rangeInfix : Str := %s /- %s -/\n\n", c04LeanBytes(inf), c04Comment(inf))
 
 		dq, rq := c04SourceFacts()
-		b.WriteString("/-- go/ast: the keyword alternation of `dateRegexp` is built by `dateWordsPattern`\n")
-		b.WriteString("    (quoted, longest first); `none` = declaration not found -/\n")
+		b.WriteString("/-- go/ast: `some false` = a DateWords* constant is pasted directly into the pattern of\n")
+		b.WriteString("    `dateRegexp` (unquoted, first-match); `some true` = the pattern is built some other way;\n")
+		b.WriteString("    `none` = declaration not found -/\n")
 		fmt.Fprintf(&b, "def dateRegexpQuoted : Option Bool := %s\n", dq)
 		fmt.Fprintf(&b, "def dateRangeRegexpQuoted : Option Bool := %s\n", rq)
 		b.WriteString("\nend Gedcom.Generated\n")
